@@ -39,6 +39,7 @@ TDProduce(e) ==
   /\ UNCHANGED <<nv, cnf, store>>
 
 TDQuery(e) ==
+  /\ Req("C07", "inexact" \notin DOMAIN e)
   /\ CASE e.ev = "eval" -> Req("C07", e.val = (e.a[2] \in den[e.a[1]]))
        [] e.ev = "wmc" -> Req("C07",
             /\ Normalised(e.sr, e.p, e.w, WX(e.wexp, nv), nv)
